@@ -28,6 +28,7 @@ def parseCall (s : String) : Option Call :=
   | ["gs", b] => (ofHex b).map (.body .string)
   | ["gb", b] => (ofHex b).map (.body .bytes)
   | ["gj", b] => (ofHex b).map (.body .json)
+  | ["gr", b] => (ofHex b).map .bodyReader
   | ["q", _ps, u] => (ofHex u).map .query
   | _ => none
 
